@@ -169,8 +169,9 @@ def _harness_b(eng, ctx):
     e = eng.fint('origin', 0, EPOCH_MAX - 1)
     k = eng.fint('shift_steps', -(EPOCH_MAX // step), EPOCH_MAX // step)
     ebv, kbv = eng.fbv('origin'), eng.fbv('shift_steps')
-    eng.solver.add(ebv + kbv * step >= 0, ebv + (n + 1) * step < EPOCH_MAX,
-                   ebv + kbv * step + (n + 1) * step < EPOCH_MAX)
+    for _c in (ebv + kbv * step >= 0, ebv + (n + 1) * step < EPOCH_MAX,
+               ebv + kbv * step + (n + 1) * step < EPOCH_MAX):
+        eng._assert(_c)
     zeta = [eng.f64('zeta%d' % i) for i in range(n + 1)]
     thr = eng.f64('thr_jump')
     big = 1.0e6
@@ -270,7 +271,7 @@ class C07(Check):
             self.absorb(exp, need_paths=1)
         for s in steps_b:
             exp = symx.explore(harness_b, {'step_s': s, 'n': 2}, name='rise_flags_fp[step=%d]' % s, workers=1,
-                               engine_kw={'query_timeout_ms': 120000 if quick else 600000})
+                               engine_kw={'query_timeout_ms': 120000 if quick else 600000, 'oneshot_tactic': 'qffp'})
             self.absorb(exp, need_paths=1)
 
         # witness replays: the real CLI at two concrete origins (incl. a date where
